@@ -41,6 +41,12 @@ fn vq_c10_bbr_minimum_window() {
     kani::cover!(true, "reach:end");
 }
 
+// NOTE: a constructor harness with a symbolic application window (`new(mds, settings)`) was tried and dropped: new()
+// builds the pacer through num_rational (gcd loops over the symbolic window); no result in 900 s even for two concrete
+// datagram sizes.  The floor right after construction is asserted in vq_c10_bbr_set_cwnd_floor (default settings, mds
+// 1200 / 9000) and, for initial_window itself, for every mds 1200..=9000 and any application window, in
+// vq_c10_bbr_minimum_window.
+
 //@ harness props=C10 tier=quick level=bounded timeout=400 bound="datagram size 1200 or 9000; bandwidth / data-volume / round / full-pipe model state as constructed by new(); cwnd, newly acked bytes, BBR state kind (Startup, Drain, ProbeRtt) symbolic"
 //@ fn BbrCongestionController::set_cwnd
 //@ fn BbrCongestionController::bound_cwnd_for_model
@@ -51,6 +57,8 @@ fn vq_c10_bbr_set_cwnd_floor() {
     // datagram sizes and a generous unwind bound; unwinding assertions stay on
     let mds: u16 = if kani::any() { 1200 } else { 9000 };
     let mut bbr = BbrCongestionController::new(mds, Default::default());
+    assert!(bbr.congestion_window() as u64 >= 4 * mds as u64, "C10/bbr.new/window_at_least_four_datagrams");
+    assert!(bbr.cwnd == BbrCongestionController::initial_window(mds, &Default::default()) && bbr.bytes_in_flight() == 0, "C10/bbr.new/window_is_initial_window_nothing_in_flight");
     bbr.cwnd = kani::any();
     bbr.state = match kani::any::<u8>() % 3 {
         0 => State::Startup,
